@@ -168,6 +168,13 @@ func respVersion(v uint32) []byte { return framed(sshFxpVersion, be32(nil, v)) }
 
 // ---- the peer ----
 
+func (p *vpeer) fileMode() uint32 {
+	if p.FileMode != 0 {
+		return p.FileMode
+	}
+	return 0o100644
+}
+
 type pfile struct {
 	data []byte
 }
@@ -188,6 +195,7 @@ type vpeer struct {
 	outst      map[uint32]bool
 
 	FailOff   map[uint64]string // READ/WRITE at these offsets are answered with failure (value = message)
+	FileMode  uint32            // mode word reported for served files (0 = a regular file, 0100644)
 	ShortAt   map[uint64]int    // READ at this offset returns only that many bytes
 	NoReply   map[uint32]bool
 	Hook      func(p *vpeer, r preq) []byte // overrides the reply when it returns non-nil
@@ -345,10 +353,10 @@ func (p *vpeer) answer(r preq) []byte {
 		if f == nil {
 			return respStatus(r.id, sshFxFailure, "bad handle "+r.handle)
 		}
-		return respAttrsSize(r.id, uint64(len(f.data)), 0o100644)
+		return respAttrsSize(r.id, uint64(len(f.data)), p.fileMode())
 	case sshFxpStat, sshFxpLstat:
 		if f := p.files[r.path]; f != nil {
-			return respAttrsSize(r.id, uint64(len(f.data)), 0o100644)
+			return respAttrsSize(r.id, uint64(len(f.data)), p.fileMode())
 		}
 		if strings.HasPrefix(r.path, "/missing") {
 			return respStatus(r.id, sshFxNoSuchFile, "no such file "+r.path)
